@@ -7,8 +7,10 @@ from lib import vlib
 from lib.vlib import tlc, tlc_require_ok, go_overlay_test, read_ndjson, Verdict, write_evidence, sub, log
 
 PID = "C20"
-SETS = [("internal/sets", "StringSet", "string", 'fmt.Sprintf("e%02d", i)'),
-        ("stringclassifier/internal/sets", "IntSet", "int", "i")]
+# the elements of the spec's universe 0..n, concretised in their order: element 1 (the smallest in use) is the EMPTY string / the ints start below zero
+# (values like any other to a set)
+SETS = [("internal/sets", "StringSet", "string", 'map[bool]string{true: fmt.Sprintf("e%02d", i)}[i != 1]'),
+        ("stringclassifier/internal/sets", "IntSet", "int", "i - 2")]
 
 
 def instantiate(settype, elemtype, conv):
@@ -130,6 +132,15 @@ def run():
     for r in recs:
         if r.get("ev") == "fault":
             v.fail("pq-trace-fault", r)
+    outb = os.path.join(sub("out"), "pq.big.ndjson")
+    rc, txt, _ = go_overlay_test("stringclassifier/internal/pq", ["common/util_test.go", "pq/pq_driver_test.go"], "^TestVerifPQBig$", env=dict(env, VERIF_OUT=outb))
+    rb = read_ndjson(outb)
+    if vlib.build_failed(txt) or not [r for r in rb if r.get("ev") == "big"]:
+        raise vlib.Inconclusive("pq big-queue driver failed:\n" + txt[-3000:])
+    for r in rb:
+        if r.get("ev") == "fault":
+            v.fail("pq-big-fault", r)
+    cov["pq_big_queue_ops"] = [r for r in rb if r.get("ev") == "big"][0]["ops"]
     pql = [r for r in recs if r.get("ev") != "fault"]
     traces += sum(1 for r in pql if r.get("ev") == "reset")
     res = tlc("TracePQueue", "TracePQueue.cfg", workers=1, timeout=900,
